@@ -62,8 +62,8 @@ def run(ctx):
             for e in p.calls("bytes::buf::buf_impl::Buf::advance", "::advance"):
                 n_adv += 1
                 a = e[3][1]
-                ok = a[0] == "okval" and pa.head_call(a)[0] == "core::result::Result::map_err" and \
-                    expr.mentions(a, lambda v: v[0] == "call" and pa.short(v[1]) == "poll_write") and not expr.mentions(a, lambda v: v[0] == "binop")
+                # the Ok payload of poll_write itself, through `?`/map_err or an explicit match, with no arithmetic on it
+                ok = a[0] in ("okval", "proj") and pa.short(pa.source_call(a)[0] or "") == "poll_write" and not expr.mentions(a, lambda v: v[0] == "binop")
                 ctx.check(ok, "C17-b", pr.key, "advance by exactly the count Quinn accepted",
                           "the pending buffer is advanced by %s; it must be the byte count returned by poll_write, unchanged" % pa.vfmt(a)[:100], "")
                 pw = [x for x in p.calls("poll_write")]
@@ -180,6 +180,32 @@ def run(ctx):
         "UnsupportedByPeer": ("SendDatagramErrorIncoming::NotAvailable", None, "NotAvailable"), "Disabled": ("SendDatagramErrorIncoming::NotAvailable", None, "NotAvailable"),
         "TooLarge": ("SendDatagramErrorIncoming::TooLarge", None, "TooLarge"),
         "ConnectionLost": ("SendDatagramErrorIncoming::ConnectionError", lambda p: p.has_call(Q + "convert_connection_error"), "ConnectionError (converted)")})
+    # who may build an h3 transport error in the adapter: only the conversion tables above and the audited sites below, so that
+    # no Quinn error reaches h3 without passing through its table (e.g. wrapped wholesale as Unknown)
+    AUDITED = {
+        Q + "convert_connection_error": None, Q + "convert_read_error_to_stream_error": None, Q + "convert_write_error_to_stream_error": None,
+        Q + "datagram::convert_send_datagram_error": None, Q + "datagram::convert_h3_error_to_datagram_error": None,
+        "<h3_quinn::Connection as h3::quic::OpenStreams<B>>::poll_open_bidi::{closure#1}": {"ConnectionErrorIncoming"},
+        "<h3_quinn::Connection as h3::quic::OpenStreams<B>>::poll_open_send::{closure#1}": {"ConnectionErrorIncoming"},
+        "<h3_quinn::OpenStreams as h3::quic::OpenStreams<B>>::poll_open_bidi::{closure#1}": {"ConnectionErrorIncoming"},
+        "<h3_quinn::OpenStreams as h3::quic::OpenStreams<B>>::poll_open_send::{closure#1}": {"ConnectionErrorIncoming"},
+        "<h3_quinn::SendStream as h3::quic::SendStream<B>>::poll_finish::{closure#0}": {"Unknown"},     # quinn's ClosedStream from finish(): no table entry exists for it
+        "<h3_quinn::SendStream as h3::quic::SendStream<B>>::send_data": {"ConnectionErrorIncoming", "InternalError"},   # the adapter's own refusal (C17-a)
+    }
+    n_err = 0
+    for b in prog.bodies:
+        if not b.key.startswith(("h3_quinn", "<h3_quinn")):
+            continue
+        for adt in ("h3::quic::StreamErrorIncoming", "h3::quic::ConnectionErrorIncoming", "h3_datagram::quic_traits::SendDatagramErrorIncoming"):
+            for bb, s_ in ru.aggregates(b, adt):
+                n_err += 1
+                allowed = AUDITED.get(b.key, set()) if b.key in AUDITED else set()
+                ok = b.key in AUDITED and (AUDITED[b.key] is None or s_.rv.variant in allowed)
+                ctx.check(ok, "C17-d", b.key, "builds %s::%s at an audited site" % (adt.rsplit("::", 1)[-1], s_.rv.variant),
+                          "%s constructs %s::%s itself: a Quinn error that does not go through convert_read_error_to_stream_error / "
+                          "convert_write_error_to_stream_error / convert_connection_error loses its class and the peer's code (reset, stop, "
+                          "application close and timeout all look the same to h3)" % (b.key, adt.rsplit("::", 1)[-1], s_.rv.variant), "", b.loc(s_))
+    ctx.floor("C17-d", "transport-error constructions in h3-quinn", n_err, 20)
     ic = ru.need(ctx, "C17-d", "h3_quinn::RecvStream::new")
     # only ordered reads are issued (supports the IllegalOrderedRead entry)
     pdk = prog.find(r"^<h3_quinn::RecvStream as h3::quic::RecvStream>::poll_data::\{closure#0\}$")
